@@ -5,17 +5,22 @@ Specifications (specs/C06):
   CifText.tla      writer + reader of cif.py, operator by operator (Impl*), the property
                    (Ideal*), the recorded-defect classes (KB_*), the CIF 1.1 grammar (Ref*)
   Containers.tla   three-level lazy container (Impl) against plain dictionaries (Ideal)
-  MCText / MCContainers / MCKeys   exhaustive configurations;  Trace.tla  trace validation
+  MCText / MCPairs / MCContainers / MCKeys   exhaustive configurations;  Trace.tla  trace validation
 
 S1  TLC: (a) on every enumerated file the code-shaped model loses the table exactly in the KB
     classes, a correct CIF codec exists, biotite's text is CIF 1.1 exactly outside the NB
     classes; (b) all reachable states of the container machine: Impl refines Ideal, refusals
-    are no-ops, stale row counts characterised; (c) key echo.
+    are no-ops, stale row counts characterised; (c) key echo; (d) every construction form hands
+    over the table itself; every rendering of MCPairs is CIF 1.1 and denotes the table.
 S2  every enumerated file is written and read with the real CIFFile and compared with the
     file itself (property) and, where it differs, with the model's prediction (finding shape);
     every transition of the container state graph is replayed on real text and binary
-    containers; every (flavour, level, key) of MCKeys is executed.
-S3  random larger files / longer mapping histories are recorded and re-computed by TLC.
+    containers; every (flavour, level, key) of MCKeys is executed; every table is also built in
+    every construction form (table before writing = table read back = the specification's);
+    containers parsed from two different texts are compared at file / block / category level for
+    every pattern of prior access and the answers compared with the specification's.
+S3  random larger files (random construction forms) / pairs of randomly rendered texts / longer
+    mapping histories are recorded and re-computed by TLC.
 """
 
 from __future__ import annotations
@@ -1168,6 +1173,16 @@ def run(ctx):
         "and serialize() fills unset encoding parameters in place)",
         "container machine: keys b1,b2 / c1,c2 / k1,k2, nested calls through file['b1']['c1'], columns are "
         "three literals; larger key sets and other paths only through recorded histories",
+        "construction forms: a column is handed over as str / list / ndarray / CIFData / CIFColumn of these, "
+        "with or without an explicit mask (list / ndarray / CIFData); without a mask the texts '.' and '?' are "
+        "the mask states (Dom_Value), under an explicit mask the text of a masked cell is irrelevant (Dom_Raw)",
+        "pairs of texts: the answers demanded of `==` are computed from what the code-shaped READER MODEL makes "
+        "of the two texts; a text that biotite did not write and on which the real reader and the model disagree "
+        "is a diagnostic and comparisons with it are not judged (reading other writers' files is not part of "
+        "the property); renderings: quoting style, blank runs (blank, three blanks, tab), one-row category as "
+        "loop_, comment / empty lines, one value per line",
+        "a lazily parsed operand of an equality call exists only if its content can be written (outcome "
+        "NoOperand otherwise); it is produced by the library's own writer and reader",
         "S2 replays every transition of the state graph once (one history per model state); histories that "
         "the model merges into one state are told apart only by the write/read observation after every call",
         "trusted: TLC, the TLA+ value parser, the token<->character map, copy.deepcopy for observation, numpy",
@@ -1635,7 +1650,7 @@ def validate_traces(ctx, traces):
 
 
 MANIFEST = {
-    "technique": "TLA+ specifications of the CIF text writer/reader (operator per function of cif.py, CIF 1.1 reference grammar) and of the lazy three-level containers (specs/C06), model-checked by TLC; every enumerated file round-tripped through the real CIFFile, every transition of the container state graph replayed on real text and binary containers, recorded random files and mapping histories re-computed by TLC",
-    "level_text": "TLC enumerates every file built from one awkward value (all strings of <=2 tokens over 18 character classes incl. the reserved words, <=3 over a reduced alphabet, and the feature product of the quoting decision: every leading character class x every subset of {blank, tab, apostrophe, double quote} in both orders) at 12 table positions (one-row, looped, first/other column, after a text field, next to mask cells, sandwiched between other categories and blocks) plus awkward block/category/column names, and checks that the code-shaped reader/writer model loses a table exactly in the recorded-defect classes, that a CIF 1.1 codec exists for every input, and that biotite's output is CIF 1.1 exactly outside the listed classes; each file is then written and read by the real CIFFile and compared cell by cell (values, order, masks). The container machine (2 flavours x 24 calls, keys b1,b2/c1,c2/k1,k2, parsed and serialised elements, cached row counts) is explored exhaustively to a bounded depth, Impl is checked to refine a plain dictionary, and every transition is replayed on real CIFFile and BinaryCIFFile objects (content, outcome, returned value; observation through a deep copy; after every call an independent copy is written and read back and compared with the specification's serialisability and content, so that caches left behind by the history show). Equality is called with literals and with operands derived from the container itself (copy, same mapping in reverse insertion order, keys reversed over the values in place); columns are assigned as column objects and as data objects. Random files up to 4x4 with values up to 8 characters and mapping histories of 30-40 calls over 3 keys per level are recorded and re-computed by TLC event by event.",
-    "level_note": "Bounded: exhaustive only for one awkward value of <=3 tokens per file and container histories of <=4 (thorough 5) calls; longer values, several awkward values per table and longer histories only through recorded runs. Characters are abstracted to the modelled classes; Unicode blanks / line separators other than space, tab and line feed are not modelled. Values containing a line break directly followed by ';' and present values equal to '.' or '?' are outside the domain (not expressible). Conformance of biotite's text to CIF 1.1 and of other writers' legal CIF to biotite's reader is reported as a diagnostic only. Five recorded defects are accepted only in their exact predicted shape. Trusted: TLC, the TLA+ value parser, the token<->character map, copy.deepcopy, numpy, msgpack.",
+    "technique": "TLA+ specifications of the CIF text writer/reader (operator per function of cif.py, CIF 1.1 reference grammar) and of the lazy three-level containers (specs/C06), model-checked by TLC; every enumerated file round-tripped through the real CIFFile, every construction form of a column and every pair of renderings of a table executed, every transition of the container state graph replayed on real text and binary containers, recorded random files, pairs of randomly rendered texts and mapping histories re-computed by TLC",
+    "level_text": "TLC enumerates every file built from one awkward value (all strings of <=2 tokens over 18 character classes incl. the reserved words, <=3 over a reduced alphabet, and the feature product of the quoting decision: every leading character class x every subset of {blank, tab, apostrophe, double quote} in both orders) at 12 table positions (one-row, looped, first/other column, after a text field, next to mask cells, sandwiched between other categories and blocks) plus awkward block/category/column names, and checks that the code-shaped reader/writer model loses a table exactly in the recorded-defect classes, that a CIF 1.1 codec exists for every input, and that biotite's output is CIF 1.1 exactly outside the listed classes; each file is then written and read by the real CIFFile and compared cell by cell (values, order, masks). The container machine (2 flavours x 24 calls, keys b1,b2/c1,c2/k1,k2, parsed and serialised elements, cached row counts) is explored exhaustively to a bounded depth, Impl is checked to refine a plain dictionary, and every transition is replayed on real CIFFile and BinaryCIFFile objects (content, outcome, returned value; observation through a deep copy; after every call an independent copy is written and read back and compared with the specification's serialisability and content, so that caches left behind by the history show). Equality is called with literals and with operands derived from the container itself (copy, same mapping in reverse insertion order at the top or at every level, keys reversed over the values in place), each freshly built, written and read back with nothing accessed, or read back and fully accessed; columns are assigned as column objects and as data objects. Construction forms: every table of a family with mask states next to values that look like the mask strings is handed over in every documented form (str, list, ndarray, CIFData, CIFColumn of each, explicit masks as list / ndarray / CIFData with three kinds of text under the masked cells) through constructor dictionaries and through assignment; the table held before writing and the table read back are both compared with the specification's stored table. Pairs of texts: every file of a family is rendered in every style of a product (quoting preference x one-row category as loop x blank run x comment lines x one value per line; TLC certifies with the CIF 1.1 reference reader that each rendering denotes the table) and compared, parsed by the real reader, with renderings of the same table (biotite's own text, the opposite style, the same text, other insertion orders) and of tables that differ in one cell / mask state / row order / column name / other category / other block, at file, block and category level, for every pattern of prior access of the two operands (none, block, everything). Random files up to 4x4 with values up to 8 characters and mapping histories of 30-40 calls over 3 keys per level are recorded and re-computed by TLC event by event.",
+    "level_note": "Bounded: exhaustive only for one awkward value of <=3 tokens per file and container histories of <=4 (thorough 5) calls; pairs of texts: one awkward value per file, 24 (thorough 120) renderings, answers demanded only where the real reader and the reader model make the same of both texts; longer values, several awkward values per table and longer histories only through recorded runs. Characters are abstracted to the modelled classes; Unicode blanks / line separators other than space, tab and line feed are not modelled. Values containing a line break directly followed by ';' and present values equal to '.' or '?' are outside the domain (not expressible). Conformance of biotite's text to CIF 1.1 and of other writers' legal CIF to biotite's reader is reported as a diagnostic only. Five recorded defects are accepted only in their exact predicted shape. Trusted: TLC, the TLA+ value parser, the token<->character map, copy.deepcopy, numpy, msgpack.",
 }
